@@ -142,7 +142,7 @@ package jhttp
 // URL (no call), 404 for method-not-found, 500 for any other failure, 200 else.
 //@ func (Getter).ServeHTTP
 //@   requires w != nil && req != nil && req.URL != nil && g.local.Client != nil
-//@   modifies whStatus(w), whCalls(w), wbCalls(w), wbJSON(w), clientCalls
+//@   modifies whStatus(w), whCalls(w), wbCalls(w), wbJSON(w), wjObj(w), clientCalls
 //@   ensures[C19:one-header] whCalls(w) == old(whCalls(w)) + 1
 //@   ensures[C19:bad-url] !called("call.CallResult#1") ==> whStatus(w) == 400 && wbJSON(w) && clientCalls == old(clientCalls)
 //@   ensures[C19:one-call] called("call.CallResult#1") ==> clientCalls == old(clientCalls) + 1
